@@ -251,11 +251,10 @@ def discarded_value_rule(ctx, rid: str, floor: int = 40):
                    'the statement has no effect', m.rel, st.lineno, construct=f'value-method:{mn}')
 
 
-# (module rel suffix, function, target name) -> reason: stores into another object's private field that are by design not on a fresh object
+# (module rel suffix, function, stored attribute) -> reason: stores into another object's private field that are by design not on a fresh object
 FOREIGN_STORE_EXEMPT = {
-    ('ops/clifford_gate.py', '_act_on_', 'sim_state'): 'the simulation state handed to _act_on_ is the mutable object the protocol is asked to update',
-    ('sim/simulation_product_state.py', 'copy', 'copy'): 'loop variable over the dictionary of copies made two lines above (each value is sim_state.copy())',
-    ('value/abc_alt.py', '__new__', 'impl_of_abstract'): 'a function object created by wrap_scope() in the same call',
+    ('ops/clifford_gate.py', '_act_on_', '_state'): 'the simulation state handed to _act_on_ is the mutable object the protocol is asked to update',
+    ('value/abc_alt.py', '__new__', '_abstract_alternatives_'): 'a function object created by wrap_scope() in the same call',
 }
 
 
@@ -326,6 +325,27 @@ def fresh_method_names(repo):
     return method_fresh, fresh_expr
 
 
+def _fresh_container_iter(fn, it, fresh_expr):
+    """`it` iterates (the values of) a local dict/list every element of which was stored from a fresh expression in this function"""
+    base = it
+    if isinstance(base, ast.Call) and isinstance(base.func, ast.Attribute) and base.func.attr == 'values' and not base.args:
+        base = base.func.value
+    if not isinstance(base, ast.Name):
+        return False
+    stores = []
+    for n in ast.walk(fn):
+        if isinstance(n, ast.Assign) and len(n.targets) == 1 and isinstance(n.targets[0], ast.Subscript) and isinstance(n.targets[0].value, ast.Name) \
+                and n.targets[0].value.id == base.id:
+            stores.append(n.value)
+        if isinstance(n, ast.Call) and isinstance(n.func, ast.Attribute) and n.func.attr == 'append' and isinstance(n.func.value, ast.Name) and n.func.value.id == base.id and n.args:
+            stores.append(n.args[0])
+    def fresh_any(v):
+        if fresh_expr(v, frozenset(), None, allow_self=False):
+            return True
+        return isinstance(v, ast.Call) and call_name(v) in ('copy', 'deepcopy')
+    return bool(stores) and all(fresh_any(v) for v in stores)
+
+
 def foreign_store_rule(ctx, rid: str, floor: int = 30):
     """`x._f = v` with x not self: x must be an object this function has just built (constructor, copy, a method that always builds a new object)."""
     repo = ctx.repo
@@ -353,12 +373,17 @@ def foreign_store_rule(ctx, rid: str, floor: int = 30):
             for st, t in sites:
                 nm = t.value.id
                 key = f'{m.name}.{fn.name}:{nm}.{t.attr}'
-                ex = next((r for (suffix, f, n), r in FOREIGN_STORE_EXEMPT.items() if m.rel.endswith(suffix) and f == fn.name and n == nm), None)
+                ex = next((r for (suffix, f, n), r in FOREIGN_STORE_EXEMPT.items() if m.rel.endswith(suffix) and f == fn.name and n == t.attr), None)
                 if ex is not None:
                     ctx.ob(rid, key, True, 'listed: ' + ex, m.rel, st.lineno)
                     continue
                 defs = rd.get(id(t.value), set())
                 bad = []
+                # loop variable over a local container filled only with freshly built objects (copies[k] = x.copy(); for c in copies.values(): c._f = ...)
+                loops = [l for l in ast.walk(fn) if isinstance(l, ast.For) and isinstance(l.target, ast.Name) and l.target.id == nm]
+                if loops and all(_fresh_container_iter(fn, l.iter, fresh_expr) for l in loops):
+                    ctx.ob(rid, key, True, 'loop over a local container of freshly built objects', m.rel, st.lineno)
+                    continue
                 for d in defs:
                     if isinstance(d, str):
                         bad.append(d)                      # 'param' / 'loop' / 'undefined'
